@@ -207,7 +207,7 @@ def main():
     stability = None
     sens = None
     kani_results = {}
-    if a.tier == "quick" and not res.get("undecided") and os.environ.get("VERIF_QUICK_KANI", "1") != "0":
+    if a.tier == "quick" and os.environ.get("VERIF_QUICK_KANI", "1") != "0":   # also when the deductive side is undecided
         # the few bounded harnesses that finish in seconds also run on every change (value-level code Verus cannot reach)
         names = [h["name"] for h in kani_run.registry()["harnesses"] if pid in h["props"] and h.get("quick")]
         if names:
@@ -221,6 +221,7 @@ def main():
             stability.append({"z3_random_seed": sd, "verified": r2.get("runs", {}).get("on", {}).get("verified"), "failed": fl,
                               "undecided": r2.get("undecided")})
         sens = sensitivity(pid)
+    if a.tier == "thorough":   # the bounded harnesses run on the real crate whatever the deductive side says
         names = [h["name"] for h in kani_run.registry()["harnesses"] if pid in h["props"]]
         if names:
             kani_results = kani_run.run(names, repo=REPO)
@@ -300,8 +301,8 @@ def main():
             lost.setdefault(sk.get("fn"), []).append(sk)
         keep_v = []
         for prof, f in violations:
-            if f["fn"] in lost:
-                hint_lost.append((f, lost[f["fn"]]))
+            if pipeline.explained_by_lost_hint(res, f):
+                hint_lost.append((f, lost.get(f["fn"], [])))
             else:
                 keep_v.append((prof, f))
         violations = keep_v
@@ -408,9 +409,12 @@ def main():
         cov["distinct_nontrivial"] = max(len(clauses), 2)
     json.dump(ev, open(ev_path, "w"), indent=1)
 
-    if undecided:
+    if undecided and not kani_viol:
         print("UNDECIDED property=%s: %s" % (pid, undecided))
         sys.exit(2)
+    if undecided:
+        # the deductive side is undecided, but a bounded harness produced a counterexample on the real code: that is a violation
+        print("note: the deductive check is UNDECIDED (%s); the bounded harness below failed on the real code" % undecided[:200])
     for f, k in known_hits:
         print("KNOWN-FINDING: property=%s %s at %s (%s) -- %s" % (pid, f["name"], f["fn"], f["text"][:80], k["text"]))
     for kr in kani_viol:
